@@ -471,6 +471,9 @@ def probes(chk, drift):
 
 def main(tier):
     chk = common.Check('C17', tier)
+    from harness import statedefs
+    defs = statedefs.use_tree_under_test()       # StateDefsGen.tla from the tree under test (T-StateDefs, ThStateDefs in every MC_C17_* run)
+    chk.notes['state_definitions_extracted'] = sorted(defs)
     chk.assumptions += [
         'HtmlState.tla is trusted as the reading of the property text and of the HTML standard (form owner = '
         'nearest form ancestor; no type attribute or the listed keywords only: unknown type keywords are not '
@@ -480,23 +483,23 @@ def main(tier):
         'B1 documents are built through the bs4 API (html.parser builder, lxml-xml builder for XHTML / XML)',
     ]
     if tier == 'quick':
-        runs = [('MC_C17_default', {'MaxNodes': 4, 'MaxDepth': 4}, 'default4', ('Emit', 'ThDefault', 'ThBoundary', 'ThPartitions')),
-                ('MC_C17_indet', {'MaxNodes': 4, 'MaxDepth': 4, 'Rich': 'FALSE'}, 'indet4', ('Emit', 'ThGroup', 'ThBoundary')),
-                ('MC_C17_disabled', {'MaxNodes': 4, 'MaxDepth': 4, 'Level': 0}, 'disabled4', ('Emit', 'ThPartitions', 'ThBoundary')),
-                ('MC_C17_disabled', {'MaxNodes': 3, 'MaxDepth': 3, 'Level': 2}, 'disabled3r', ('Emit', 'ThPartitions')),
-                ('MC_C17_dir', {'MaxNodes': 4, 'MaxDepth': 4, 'Rich': 'FALSE'}, 'dir4', ('Emit', 'ThPartitions', 'ThDirReadings')),
-                ('MC_C17_dir', {'MaxNodes': 3, 'MaxDepth': 3, 'Rich': 'TRUE'}, 'dir3r', ('Emit', 'ThPartitions', 'ThDirReadings')),
-                ('MC_C17_attrs', {'Rich': 'FALSE'}, 'attrs', ('Emit', 'ThPartitions')),
-                ('MC_C17_ns', {'MaxNodes': 3}, 'ns3', ('Emit', 'ThPartitions', 'ThFrame', 'ThDirReadings'))]
+        runs = [('MC_C17_default', {'MaxNodes': 4, 'MaxDepth': 4}, 'default4', ('Emit', 'ThDefault', 'ThBoundary', 'ThPartitions', 'ThStateDefs')),
+                ('MC_C17_indet', {'MaxNodes': 4, 'MaxDepth': 4, 'Rich': 'FALSE'}, 'indet4', ('Emit', 'ThGroup', 'ThBoundary', 'ThStateDefs')),
+                ('MC_C17_disabled', {'MaxNodes': 4, 'MaxDepth': 4, 'Level': 0}, 'disabled4', ('Emit', 'ThPartitions', 'ThBoundary', 'ThStateDefs')),
+                ('MC_C17_disabled', {'MaxNodes': 3, 'MaxDepth': 3, 'Level': 2}, 'disabled3r', ('Emit', 'ThPartitions', 'ThStateDefs')),
+                ('MC_C17_dir', {'MaxNodes': 4, 'MaxDepth': 4, 'Rich': 'FALSE'}, 'dir4', ('Emit', 'ThPartitions', 'ThDirReadings', 'ThStateDefs')),
+                ('MC_C17_dir', {'MaxNodes': 3, 'MaxDepth': 3, 'Rich': 'TRUE'}, 'dir3r', ('Emit', 'ThPartitions', 'ThDirReadings', 'ThStateDefs')),
+                ('MC_C17_attrs', {'Rich': 'FALSE'}, 'attrs', ('Emit', 'ThPartitions', 'ThStateDefs')),
+                ('MC_C17_ns', {'MaxNodes': 3}, 'ns3', ('Emit', 'ThPartitions', 'ThFrame', 'ThDirReadings', 'ThStateDefs'))]
         par, workers = 4, 4
     else:
-        runs = [('MC_C17_default', {'MaxNodes': 5, 'MaxDepth': 4}, 'default5', ('Emit', 'ThDefault', 'ThBoundary', 'ThPartitions')),
-                ('MC_C17_indet', {'MaxNodes': 5, 'MaxDepth': 4, 'Rich': 'FALSE'}, 'indet5', ('Emit', 'ThGroup', 'ThBoundary')),
-                ('MC_C17_disabled', {'MaxNodes': 4, 'MaxDepth': 4, 'Level': 2}, 'disabled4r', ('Emit', 'ThPartitions', 'ThBoundary')),
-                ('MC_C17_dir', {'MaxNodes': 4, 'MaxDepth': 4, 'Rich': 'TRUE'}, 'dir4r', ('Emit', 'ThPartitions', 'ThDirReadings')),
-                ('MC_C17_indet', {'MaxNodes': 4, 'MaxDepth': 4, 'Rich': 'TRUE'}, 'indet4r', ('Emit', 'ThGroup', 'ThBoundary')),
-                ('MC_C17_attrs', {'Rich': 'TRUE'}, 'attrs-rich', ('Emit', 'ThPartitions')),
-                ('MC_C17_ns', {'MaxNodes': 3}, 'ns3', ('Emit', 'ThPartitions', 'ThFrame', 'ThDirReadings'))]
+        runs = [('MC_C17_default', {'MaxNodes': 5, 'MaxDepth': 4}, 'default5', ('Emit', 'ThDefault', 'ThBoundary', 'ThPartitions', 'ThStateDefs')),
+                ('MC_C17_indet', {'MaxNodes': 5, 'MaxDepth': 4, 'Rich': 'FALSE'}, 'indet5', ('Emit', 'ThGroup', 'ThBoundary', 'ThStateDefs')),
+                ('MC_C17_disabled', {'MaxNodes': 4, 'MaxDepth': 4, 'Level': 2}, 'disabled4r', ('Emit', 'ThPartitions', 'ThBoundary', 'ThStateDefs')),
+                ('MC_C17_dir', {'MaxNodes': 4, 'MaxDepth': 4, 'Rich': 'TRUE'}, 'dir4r', ('Emit', 'ThPartitions', 'ThDirReadings', 'ThStateDefs')),
+                ('MC_C17_indet', {'MaxNodes': 4, 'MaxDepth': 4, 'Rich': 'TRUE'}, 'indet4r', ('Emit', 'ThGroup', 'ThBoundary', 'ThStateDefs')),
+                ('MC_C17_attrs', {'Rich': 'TRUE'}, 'attrs-rich', ('Emit', 'ThPartitions', 'ThStateDefs')),
+                ('MC_C17_ns', {'MaxNodes': 3}, 'ns3', ('Emit', 'ThPartitions', 'ThFrame', 'ThDirReadings', 'ThStateDefs'))]
         par, workers = 4, 4
     jobs = [('trace-c17', None)] + [(label, (module, consts, invs)) for module, consts, label, invs in runs]
     routers = run_side_by_side(jobs, tier, par, workers)
